@@ -194,7 +194,7 @@ def job_tm(job, nwork, gamma_in, N, K, default_budget=False, budgets=None):
     return job.solve()
 
 
-def job_cfg(job, kind, N, family=None, nsym=None, variables=None, pairs=None):
+def job_cfg(job, kind, N, family=None, nsym=None, variables=None, pairs=None, history=False):
     from gambatools.cfg_algorithms import cfg_words_up_to_n
     from gambatools.language_generator import generate_language
     from .cfg_sym import sym_cfg, entries_json, GrammarSem
@@ -221,7 +221,20 @@ def job_cfg(job, kind, N, family=None, nsym=None, variables=None, pairs=None):
         res[b] = job.call(cfg_words_up_to_n, G, b, replay=rp)
         if b == N:
             gen[b] = job.call(generate_language, G, b, replay=rp)
+    res2 = {}
+    if history:
+        # call history: the same rules with another start variable enumerated right after the first grammar, then the first again
+        import gambatools.cfg as C
+        G2 = C.CFG(G.V, G.Sigma, G.R, C.Variable(variables[1]))
+        rph = ('cfg_history', {'G': dec, 'second_start': variables[1], 'n': N})
+        res2[1] = job.call(cfg_words_up_to_n, G2, N, replay=rph)
+        res2[0] = job.call(generate_language, G, N, replay=rph)
     job.lifted()
+    for which, r in res2.items():
+        if r is not None:
+            sems2 = {w: GrammarSem(entries, variables, w) for w in universe}
+            check_enum(job, 'after other calls: words up to %d of the grammar with start variable %s' % (N, variables[which]), r, universe,
+                       lambda w: sems2[w].derives(variables[which]), N, ('cfg_history', {'G': dec, 'second_start': variables[1], 'n': N}))
     ncfg = c.native('cfg_algorithms')
     job.differential(15, lambda mv: {b: c.conc(res[b], mv) for b in res},
                      lambda mv: (lambda Gn: {b: ncfg.cfg_words_up_to_n(Gn, b) for b in res})(nat.mk_cfg(dec(mv), c.native('cfg'))), 'cfg_words_up_to_n')
@@ -320,6 +333,8 @@ def jobs(tier):
     add('tm_g2', job_tm, nwork=1, gamma_in='ab', N=2, K=3, timeout=tmo)
     add('cfg_cnf_2vars', job_cfg, kind='cnf', variables=['S', 'A'], N=3 if q else 4, timeout=tmo)
     add('cfg_cnf_3vars', job_cfg, kind='cnf', variables=['S', 'A', 'B'], pairs=[['A', 'B']], N=3, timeout=tmo)
+    add('cfg_history_eps_unit', job_cfg, kind='general', family='eps_unit', nsym=5, N=2, history=True, timeout=tmo)
+    add('cfg_history_three_vars', job_cfg, kind='general', family='three_vars', nsym=5, N=2, history=True, timeout=tmo)
     for fam in ('eps_unit', 'three_vars', 'indirect_nullable'):
         add('cfg_%s' % fam, job_cfg, kind='general', family=fam, nsym=5 if q else 7, N=2 if q else 3, timeout=tmo)
     for fam in ('grow_cycle', 'replace_and_pop', 'two_stack_symbols'):
@@ -444,4 +459,22 @@ def _replay_history(rp):
     return (not ok1) or second != exp2, {'first ok': ok1, 'second': sorted(second), 'expected': sorted(exp2)}
 
 
-REPLAY = {'history': _replay_history, 'dfa': _replay_dfa, 'nfa': _replay_nfa, 'regexp': _replay_regexp, 'tm': _replay_tm, 'cfg': _replay_cfg, 'pda': _replay_pda}
+def _replay_cfg_history(rp):
+    from gambatools.cfg_algorithms import cfg_words_up_to_n
+    from gambatools.language_generator import generate_language
+    js, n = rp['G'], rp['n']
+    js2 = dict(js, S=rp['second_start'])
+    problems = []
+    for j, fn in ((js, cfg_words_up_to_n), (js2, cfg_words_up_to_n), (js, generate_language)):
+        try:
+            got = fn(nat.mk_cfg(j), n)
+        except Exception as e:
+            problems.append('start %s: raised %r' % (j['S'], e))
+            continue
+        ref = set(w for w in nat.words_upto(j['Sigma'], n) if nat.ref_cfg_accepts(j, w))
+        if got != ref:
+            problems.append('start %s (after earlier calls): %s gives %r, reference %r' % (j['S'], fn.__name__, sorted(got), sorted(ref)))
+    return bool(problems), {'problems': problems}
+
+
+REPLAY = {'cfg_history': _replay_cfg_history, 'history': _replay_history, 'dfa': _replay_dfa, 'nfa': _replay_nfa, 'regexp': _replay_regexp, 'tm': _replay_tm, 'cfg': _replay_cfg, 'pda': _replay_pda}
